@@ -9,12 +9,19 @@ import subprocess
 import tempfile
 import time
 
-Z3_TIMEOUT_MS = int(os.environ.get("PYVC_Z3_TIMEOUT_MS", "24000"))
-CVC5_TIMEOUT_MS = int(os.environ.get("PYVC_CVC5_TIMEOUT_MS", "15000"))
+Z3_TIMEOUT_MS = int(os.environ.get("PYVC_Z3_TIMEOUT_MS", "48000"))
+CVC5_TIMEOUT_MS = int(os.environ.get("PYVC_CVC5_TIMEOUT_MS", "10000"))
 
 
 def _solve(task):
-    idx, smt2, want_model, timeout_ms = task
+    idx, smt2, want_model, timeout_ms, focused = task
+    if focused is not None:
+        r = _solve((idx, focused, False, max(timeout_ms // 2, 4000), None))
+        if r[1] == "unsat":
+            return (r[0], r[1], r[2] + "+focus", r[3], r[4], r[5])
+        t_f = r[3]
+        r2 = _solve((idx, smt2, want_model, timeout_ms, None))
+        return (r2[0], r2[1], r2[2], r2[3] + t_f, r2[4], r2[5])
     import z3
 
     t0 = time.time()
@@ -95,7 +102,7 @@ def discharge(obligations, procs=None, want_model=True, timeout_ms=None):
     timeout_ms = timeout_ms or Z3_TIMEOUT_MS
     tasks = []
     for k, ob in enumerate(obligations):
-        tasks.append((k, ob.smt2(), want_model, timeout_ms))
+        tasks.append((k, ob.smt2(), want_model, timeout_ms, ob.smt2(focused=True) if getattr(ob, "focus_hyps", None) is not None else None))
     if not tasks:
         return
     if procs == 1 or len(tasks) == 1:
